@@ -419,7 +419,7 @@ def run(ctx):
                     idx += 1
                     if not ctx.mine(idx):
                         continue
-                    if (idx & 0x3f) == 0 and ctx.expired():
+                    if ((idx // ctx.nshards) & 0x7) == 0 and ctx.expired():       # counted per shard: idx itself is filtered by mine()
                         done = False
                         break
                     case = dict(s='H', initial=inits[init], kind=kind, flag=bool((idx // 7) % 2),
